@@ -53,6 +53,9 @@ func genHist(t *rapid.T, kind sdsl.Kind, withMerge bool, limits bool) histCase {
 		switch a.T {
 		case "block":
 			k := rapid.IntRange(0, 5).Draw(t, "nops")
+			if rapid.IntRange(0, 7).Draw(t, "busyblock") == 0 {
+				k = rapid.IntRange(9, 24).Draw(t, "nopsbusy") // a busy block: a long delta list
+			}
 			maxOrd := rapid.SampledFrom([]uint64{1, 4, 9}).Draw(t, "maxord")
 			for j := 0; j < k; j++ {
 				a.Ops = append(a.Ops, sdsl.GenOp(t, kind, maxOrd, 20))
@@ -183,7 +186,9 @@ func checkHist(c histCase) *ev.Failure {
 			if exceeded {
 				return ev.Failf("too-big/late", "step %d: content reached %d bytes > limit %d during the block but Flush did not reject it", step, cur, limit)
 			}
-			chain = append(chain, appliedBlock{ops: ops, deltas: cloneDeltas(full.GetDeltas())})
+			// kept as the pipeline keeps them: the fork handler holds the block's module output, whose delta list is the
+			// very slice the store handed out (no copy), until the block is final
+			chain = append(chain, appliedBlock{ops: ops, deltas: full.GetDeltas()})
 			full.Reset()
 			num++
 		case "undo":
